@@ -28,7 +28,10 @@ def evaluate(expr, classify, env):
         return all(vals) if isinstance(expr.op, ast.And) else any(vals)
     if isinstance(expr, ast.UnaryOp) and isinstance(expr.op, ast.Not):
         return not evaluate(expr.operand, classify, env)
-    name, positive = classify(expr)
+    c = classify(expr)
+    if c is None:
+        raise ValueError(f"unclassified condition atom: {ast.unparse(expr)}")
+    name, positive = c
     return env[name] if positive else not env[name]
 
 
